@@ -657,35 +657,7 @@ func serverClose(c *Ctx) {
 			bad = append(bad, "teardown is not called in a loop over the tracked services")
 		} else {
 			subj := rangeSubject(l)
-			okSubj := subj != nil && ir.PathOf(subj).Class() == "service.Server.svcs"
-			if mk, isMk := subj.(*ssa.MakeSlice); isMk && !okSubj {
-				// a snapshot: make([]*service, len(svr.svcs)); copy(snapshot, svr.svcs)
-				for _, call := range ir.Calls(fn) {
-					if bi, isB := call.Common().Value.(*ssa.Builtin); isB && bi.Name() == "copy" {
-						a := call.Common().Args
-						if a[0] == ssa.Value(mk) && ir.PathOf(a[1]).Class() == "service.Server.svcs" {
-							if lc, isC := mk.Len.(*ssa.Call); isC {
-								if b2, isB2 := lc.Common().Value.(*ssa.Builtin); isB2 && b2.Name() == "len" && ir.PathOf(lc.Common().Args[0]).Class() == "service.Server.svcs" {
-									okSubj = true
-								}
-							}
-						}
-					}
-				}
-			}
-			// a snapshot made with append([]*service(nil), svr.svcs...): a whole-slice append to an empty slice
-			if ap, isCall := subj.(*ssa.Call); isCall && !okSubj {
-				if bi, isB := ap.Common().Value.(*ssa.Builtin); isB && bi.Name() == "append" && len(ap.Common().Args) == 2 {
-					a := ap.Common().Args
-					emptyBase := false
-					if k, isK := a[0].(*ssa.Const); isK && k.IsNil() {
-						emptyBase = true
-					}
-					if src, isLoad := a[1].(*ssa.UnOp); isLoad && emptyBase && ir.PathOf(src).Class() == "service.Server.svcs" {
-						okSubj = true
-					}
-				}
-			}
+			okSubj := subj != nil && c.isServicesSnapshot(subj, 0)
 			if !okSubj {
 				bad = append(bad, "the loop does not range over Server.svcs (or a full snapshot of it)")
 			}
@@ -724,4 +696,61 @@ func serverClose(c *Ctx) {
 		"close(quit) dominates the listener closes (the accept loops see quit when Accept fails)",
 		"a listener is closed before the quit channel: the accept loop treats the error as fatal / logs and returns an error")
 	_ = effects.AtomicOp
+}
+
+// isServicesSnapshot: v is Server.svcs itself or a full copy of it (make+copy, append to an empty slice),
+// possibly produced by a helper all of whose returns are such a value.
+func (c *Ctx) isServicesSnapshot(v ssa.Value, depth int) bool {
+	if v == nil || depth > 2 {
+		return false
+	}
+	v = ir.SeeThrough(v)
+	if _, isLoad := v.(*ssa.UnOp); isLoad && ir.PathOf(v).Class() == "service.Server.svcs" {
+		return true
+	}
+	switch x := v.(type) {
+	case *ssa.MakeSlice:
+		// make([]*service, len(svr.svcs)); copy(snapshot, svr.svcs)
+		fn := x.Parent()
+		for _, call := range ir.Calls(fn) {
+			if bi, isB := call.Common().Value.(*ssa.Builtin); isB && bi.Name() == "copy" {
+				a := call.Common().Args
+				if a[0] == ssa.Value(x) && ir.PathOf(a[1]).Class() == "service.Server.svcs" {
+					if lc, isC := x.Len.(*ssa.Call); isC {
+						if b2, isB2 := lc.Common().Value.(*ssa.Builtin); isB2 && b2.Name() == "len" && ir.PathOf(lc.Common().Args[0]).Class() == "service.Server.svcs" {
+							return true
+						}
+					}
+				}
+			}
+		}
+	case *ssa.Call:
+		if bi, isB := x.Common().Value.(*ssa.Builtin); isB {
+			// append([]*service(nil), svr.svcs...)
+			if bi.Name() == "append" && len(x.Common().Args) == 2 {
+				a := x.Common().Args
+				if k, isK := a[0].(*ssa.Const); isK && k.IsNil() {
+					if src, isLoad := a[1].(*ssa.UnOp); isLoad && ir.PathOf(src).Class() == "service.Server.svcs" {
+						return true
+					}
+				}
+			}
+			return false
+		}
+		callee := x.Common().StaticCallee()
+		if callee == nil || callee.Blocks == nil || !c.P.InLib(callee) {
+			return false
+		}
+		rets := ir.Returns(callee)
+		if len(rets) == 0 {
+			return false
+		}
+		for _, ret := range rets {
+			if len(ret.Results) == 0 || !c.isServicesSnapshot(ir.ReturnOperand(ret, 0), depth+1) {
+				return false
+			}
+		}
+		return true
+	}
+	return false
 }
